@@ -8,7 +8,8 @@ PID = "C22"
 RULE = ("Generated programs with autoinc() in 1-4 rules: in rule heads (bare and inside arithmetic), in several rules feeding one "
         "relation, and over the result of a recursive stratum; every autoinc rule has a companion rule with the same body whose head lists all body "
         "variables, so the exact number of rule evaluations is known. EDBs of 300-6000 tuples from generated .facts files; run at "
-        "-jN, N in {1,2,4,8,16}, with the seeded perturbation hook in 3 of 4 parallel runs. Oracle: (1) the values in all autoinc columns of "
+        "-jN, N in {1,2,4,8,16}, with the seeded perturbation hook in 3 of 4 parallel runs; 4% of the cases run in compiled mode (-c) "
+        "with three autoinc relations, the middle one over a recursive stratum (autoinc() used before and after a fixpoint loop). Oracle: (1) the values in all autoinc columns of "
         "the whole run are pairwise distinct; (2) every autoinc relation holds exactly as many tuples as its rules were evaluated "
         "(sum of the companions' sizes). Non-trivial = N >= 2, the transformed RAM "
         "contains a PARALLEL operation and >= 1000 autoinc evaluations happened; distinct by hash of (program, facts, N, seed).")
@@ -24,7 +25,10 @@ def gen(ch):
     lines = [".decl e(a:number, b:number)", ".input e", ".decl k(a:number)", ".input k"]
     expect = {}      # relation -> list of companion relations whose sizes add up, or ("const", n)
     cols = {}        # relation -> index of the autoinc column
-    nrel = ch.int(1, 3)
+    compiled = ch.bool(0.04)     # a C++ compile per case: rare; shaped so that autoinc() is used before and after a fixpoint loop
+    if compiled:
+        n = min(n, 1200)
+    nrel = 3 if compiled else ch.int(1, 3)
     comp = [0]
 
     def companion(body, vars_):
@@ -40,6 +44,8 @@ def gen(ch):
               ("k(x), e(x, y), y != x", ["x", "y"]), ("e(x, y), !k(x)", ["x", "y"])]
     for i in range(nrel):
         kind = ch.weighted([(4, "head"), (3, "bound"), (3, "two_rules"), (2, "recursive")])
+        if compiled:
+            kind = "recursive" if i == 1 else kind if kind != "recursive" else "head"
         r = "r%d" % i
         if kind == "recursive":
             # (autoinc() inside a recursive rule is rejected by the semantic checker; it is applied to the result of a
@@ -70,11 +76,12 @@ def gen(ch):
     env = {}
     if j > 1 and ch.bool(0.75):
         env["SOUFFLE_VERIF_PERTURB"] = str(ch.int(1, 1 << 20))
-    return {"program": "\n".join(lines) + "\n", "facts": facts, "args": ["-j%d" % j], "env": env, "expect": expect, "cols": cols, "j": j}
+    return {"program": "\n".join(lines) + "\n", "facts": facts, "args": ["-j%d" % j] + (["-c"] if compiled else []), "env": env, "expect": expect,
+            "cols": cols, "j": j, "compiled": compiled}
 
 
 def judge(case, st=None):
-    res = runner.run_program(case["program"], case["facts"], args=case["args"], env=case["env"], timeout=120)
+    res = runner.run_program(case["program"], case["facts"], args=case["args"], env=case["env"], timeout=900 if case.get("compiled") else 120)
     runner.classify_failure(res, "run", case)
     seen = {}
     msgs = []
@@ -101,7 +108,9 @@ def judge(case, st=None):
         raise Violation("autoinc() values are not unique within the run (%s):\n%s" % (" ".join(case["args"]), "\n".join(msgs[:8])),
                         {"case": case, "selfevident": True})
     if st is not None:
-        ram = runner.show(case["program"], case["facts"], "transformed-ram", args=case["args"])
+        if case.get("compiled"):
+            st.classes["compiled_mode(autoinc before and after a fixpoint loop)"] += 1
+        ram = runner.show(case["program"], case["facts"], "transformed-ram", args=[a for a in case["args"] if a != "-c"])
         par = ram is not None and "PARALLEL" in ram
         if case["j"] >= 2 and par and total >= 1000:
             st.nontrivial.add(common.h(case["program"] + repr(sorted(case["facts"].items())) + repr(case["args"]) + repr(case["env"])))
@@ -118,5 +127,5 @@ def extra(st):
 
 
 CHECK = PCheck(PID, RULE, gen, judge, quick=250, thorough=6000, floor=30, extra=extra,
-               assumptions=["interpreter back end in the quick tier", "OS schedules are sampled under seeded perturbation, not controlled"])
+               assumptions=["interpreter back end except for the 4% compiled cases", "OS schedules are sampled under seeded perturbation, not controlled"])
 main, replay_file = CHECK.main, CHECK.replay_file
